@@ -101,6 +101,8 @@ class _Stats:
         self.skipped = 0
         self.exhaustive_cells = 0
         self.failure = None
+        self.nonrepro = []
+        self.also_failed = []
 
     def add(self, case, out, max_samples=3):
         self.cases += 1
@@ -129,7 +131,8 @@ class _Stats:
         return dict(evals=self.evals, cases=self.cases, nt_fps=sorted(self.nt_fps),
                     nt_extra=self.nt_extra, labels=self.labels, samples=self.samples,
                     known=self.known, inconclusive=self.inconclusive, skipped=self.skipped,
-                    exhaustive_cells=self.exhaustive_cells, failure=self.failure)
+                    exhaustive_cells=self.exhaustive_cells, failure=self.failure, nonrepro=self.nonrepro[:3],
+                    also_failed=self.also_failed)
 
 
 class CaseTimeout(BaseException):
@@ -192,6 +195,11 @@ def _shard(pid, tier, seed, shard, nshards, examples, no_shrink):
             out = _run_one(mod, case, known)
             st.add(case, out)
             if not out.ok and not out.known:
+                if _run_one(mod, case, known).ok:
+                    # passes when repeated at once: the failure depends on what ran before (state kept by the
+                    # code under test or the harness); keep searching for a self-contained reproducer
+                    st.nonrepro.append(dict(case=case, detail=out.detail))
+                    continue
                 st.failure = dict(case=case, detail=out.detail, phase='enumerate')
                 return st.export()
     # 2. generated part
@@ -215,8 +223,14 @@ def _shard(pid, tier, seed, shard, nshards, examples, no_shrink):
             out = _run_one(mod, case, known)
             if holder.get('failed') is None:
                 st.add(case, out)
+            if not out.ok and not out.known and 'did not terminate within' not in out.detail \
+                    and _run_one(mod, case, known).ok:
+                st.nonrepro.append(dict(case=case, detail=out.detail))  # history-dependent: keep searching
+                return
             if not out.ok and not out.known:
                 holder['failed'] = dict(case=case, detail=out.detail, phase='generate')
+                if len(st.also_failed) < 40:
+                    st.also_failed.append(holder['failed'])  # fall-backs should the shrunk case not reproduce
                 if 'did not terminate within' in out.detail:
                     holder['timeout'] = holder['failed']
                 raise AssertionError(out.detail)
@@ -379,23 +393,57 @@ def main(argv=None):
         if r['failure']:
             violations.append((r['failure']['case'], r['failure']['detail']))
 
-    # confirm violations without Hypothesis, write replays
+    # confirm violations without Hypothesis, each in a FRESH process (`--replay`), so that a confirmed case is
+    # a self-contained reproducer: a case that only failed because of state left by earlier cases in its shard
+    # (in the code under test or in the harness) does not count; the other failing cases of the search (the
+    # first, unshrunk ones are usually self-contained) are tried before giving up.
     confirmed = []
+    tried = set()
+
+    def fresh_confirm(case, detail):
+        fp = fingerprint(case)
+        if fp in tried:
+            return None
+        tried.add(fp)
+        path = write_replay(pid, case, detail)
+        import subprocess
+        env = dict(os.environ, PYTHONHASHSEED='0')
+        r = subprocess.run([sys.executable, '-m', 'vlib.runner', pid, '--replay', path], cwd=VERIF, env=env,
+                           capture_output=True, text=True)
+        if r.returncode == 1:
+            return path, (r.stdout.strip().splitlines() or [detail])[0]
+        os.remove(path)
+        if r.returncode == 2:
+            return 'crash', r.stdout[-1500:] + r.stderr[-1500:]
+        return None
+
     for case, detail in violations:
-        try:
-            out = _run_one(mod, case, known_ids(pid))
-        except Exception:
+        got = fresh_confirm(case, detail)
+        if got and got[0] == 'crash':
             print(f'HARNESS-ERROR property={pid} confirmation run crashed')
-            traceback.print_exc()
+            print(got[1])
             return 2
-        if out.ok:
-            # did not reproduce: case is not a pure function of its data -> harness problem
-            print(f'HARNESS-ERROR property={pid} failure did not reproduce: {detail[:500]}')
+        if got is None and fingerprint(case) in tried:
+            for r in results:
+                for f in r.get('also_failed', []):
+                    got = fresh_confirm(f['case'], f['detail'])
+                    if got and got[0] != 'crash':
+                        case = f['case']
+                        break
+                    got = None
+                if got:
+                    break
+        if got is None:
+            if any(c == case for c, _, _ in confirmed):
+                continue
+            # may be a known-finding case (exit 0 with KNOWN-FINDING) or a history-dependent failure
+            out = _run_one(mod, case, known_ids(pid))
+            if not out.ok and out.known:
+                continue
+            print(f'HARNESS-ERROR property={pid} failure did not reproduce in a fresh process: {detail[:500]}')
             print(json.dumps(case, default=str)[:2000])
             return 2
-        if out.known:
-            continue
-        confirmed.append((case, out.detail))
+        confirmed.append((case, got[1], got[0]))
 
     wall = time.time() - t0
     if not args.no_evidence:
@@ -425,9 +473,14 @@ def main(argv=None):
     if cases and inconcl > 0.2 * cases:
         print(f'HARNESS-ERROR property={pid} too many inconclusive cases ({inconcl}/{cases})')
         return 2
+    nonrepro = [x for r in results for x in r.get('nonrepro', [])]
+    if nonrepro and not confirmed:
+        print(f'HARNESS-ERROR property={pid} {len(nonrepro)} failure(s) that pass when the same case is repeated '
+              f'(they depend on what ran before in the process); first: {nonrepro[0]["detail"][:600]}')
+        print(json.dumps(nonrepro[0]['case'], default=str)[:1500])
+        return 2
     if confirmed:
-        for case, detail in confirmed:
-            path = write_replay(pid, case, detail)
+        for case, detail, path in confirmed:
             print(detail[:3000])
             print(f'VIOLATION property={pid} replay={os.path.relpath(path, VERIF)}')
         return 1
